@@ -541,6 +541,16 @@ async fn run_side(conn: Connection, side: Side, cfg: Arc<WorldCfg>, shared: Shar
 /// operation (successfully or with an error), or at `deadline` virtual time,
 /// or when the network reports a send storm.
 pub async fn run_workload(world: &World, cfg: &WorldCfg, deadline: Duration) -> Transcript {
+    run_workload_keep(world, cfg, deadline).await.0
+}
+
+/// Like [`run_workload`], also handing back the two connections (client, server) so that the
+/// caller can go on with them (close, query the termination error).
+pub async fn run_workload_keep(
+    world: &World,
+    cfg: &WorldCfg,
+    deadline: Duration,
+) -> (Transcript, (Option<Connection>, Option<Connection>)) {
     let cfg = Arc::new(cfg.clone());
     let shared: Shared = Arc::new(Mutex::new(Transcript {
         streams: (0..cfg.streams.len())
@@ -613,5 +623,6 @@ pub async fn run_workload(world: &World, cfg: &WorldCfg, deadline: Duration) -> 
     if let Some(c) = server_conn.lock().unwrap().as_ref() {
         t.server_terminated = c.terminated().now_or_never().map(|e| format!("{:?}: {}", e.kind(), e));
     }
-    t
+    let server = server_conn.lock().unwrap().clone();
+    (t, (client_conn.ok(), server))
 }
